@@ -24,7 +24,9 @@ RULE = (
     "Hypothesis draws an expression tree (all classes/options, depth <= 2, size 1-5), a history of 4-25 "
     "operations (requests of T, inv, sqrt, eigval, eigvec, factor, lu_and_piv, capacitance_matrix, hash, array, "
     "diagonal, log_abs_det, gradients, chained T/inv/sqrt, products, scalar multiples, comparisons, copy / deepcopy "
-    "/ pickle, in-place writes to every caller-supplied array) and a single-option mutation of the tree. Oracle: "
+    "/ pickle, in-place writes to every caller-supplied array; chained requests on derived objects such as T.inv, "
+    "(s*M).inv, (s*M).log_abs_det, inv.grad_*, -M.eigval; and the macro 'pair': on a fresh instance evaluate one "
+    "cache-populating attribute A then any request B) and a single-option mutation of the tree. Oracle: "
     "every result equals the result of the same request on a freshly built instance (rtol 1e-9); operand content "
     "and caller arrays byte-identical after every operation; writes raise or leave the matrix unchanged; twin "
     "built from equal parameters is == and hash-equal; == implies equal dense arrays (checked on the mutated "
@@ -38,8 +40,16 @@ ASSUMPTIONS = [
 
 LAZY = ["T", "inv", "sqrt", "eigval", "eigvec", "factor", "lu_and_piv", "capacitance", "hash", "array", "diagonal",
         "log_abs_det", "grad_log_abs_det", "grad_quad", "inv.T", "T.inv", "inv.inv", "sqrt.T", "inv.sqrt",
-        "inv.eigval", "T.array", "inv.array", "inv.log_abs_det", "inv.diagonal"]
-OPS = LAZY + ["matvec", "rmatvec", "matmat", "mul", "div", "neg", "eq-twin", "eq-self", "copy", "deepcopy", "pickle",
+        "inv.eigval", "T.array", "inv.array", "inv.log_abs_det", "inv.diagonal",
+        # derived objects built from the operand's (possibly already populated) caches
+        "T.log_abs_det", "T.diagonal", "T.inv.array", "inv.T.array", "T.capacitance", "inv.capacitance",
+        "mul.inv", "mul.log_abs_det", "mul.sqrt", "mul.eigval", "mul.grad_log_abs_det", "mul.grad_quad",
+        "mul.inv.log_abs_det", "div.inv", "div.log_abs_det", "neg.inv", "neg.log_abs_det", "neg.eigval",
+        "inv.grad_log_abs_det", "inv.grad_quad", "inv.mul.inv", "T.mul.inv", "sqrt.inv", "sqrt.log_abs_det"]
+# attributes whose evaluation populates a cache that derived objects may be handed
+WARM = ["inv", "log_abs_det", "capacitance", "sqrt", "eigval", "eigvec", "factor", "lu_and_piv", "T", "array",
+        "grad_log_abs_det", "grad_quad", "diagonal", "hash", "inv.log_abs_det", "inv.inv", "T.inv"]
+OPS = LAZY + ["pair", "pair", "pair", "pair", "matvec", "rmatvec", "matmat", "mul", "div", "neg", "eq-twin", "eq-self", "copy", "deepcopy", "pickle",
               "write", "matmul-twin"]
 
 
@@ -77,19 +87,38 @@ def value_of(M, name, data, s):
     def arr(x):
         return np.asarray(x.array if isinstance(x, mm.Matrix) else x, dtype=float)
 
+    def seg(obj, a):
+        if a == "capacitance":
+            return obj.capacitance_matrix
+        if a == "mul":
+            return s * obj
+        if a == "div":
+            return obj / s
+        if a == "neg":
+            return -obj
+        if a == "grad_log_abs_det":
+            return ("flat", _flat(obj.grad_log_abs_det))
+        if a == "grad_quad":
+            return ("flat", _flat(obj.grad_quadratic_form_inv(np.resize(v, obj.shape[0]).copy())))
+        return getattr(obj, a)
+
     def chain(obj, path):
         for a in path.split("."):
-            obj = getattr(obj, "capacitance_matrix" if a == "capacitance" else a)
+            obj = seg(obj, a)
         return obj
 
     if name in ("hash",):
         return ("int", hash(M))
-    if name in ("eigval", "diagonal", "log_abs_det", "array", "inv.eigval", "T.array", "inv.array",
-                "inv.log_abs_det", "inv.diagonal"):
-        return arr(chain(M, name))
-    if name in ("T", "inv", "sqrt", "eigvec", "factor", "capacitance", "inv.T", "T.inv", "inv.inv", "sqrt.T",
-                "inv.sqrt"):
-        return arr(chain(M, name))
+    if "." in name or name in ("eigval", "diagonal", "log_abs_det", "array", "T", "inv", "sqrt", "eigvec", "factor",
+                               "capacitance"):
+        out = chain(M, name)
+        if isinstance(out, tuple) and out and isinstance(out[0], str) and out[0] == "flat":
+            return out[1]
+        if "." in name and name.endswith("eigval"):
+            # eigenvalues of a *derived* object: their order is not documented (a derived object handed the
+            # operand's eigendecomposition keeps the operand's order, one computing its own sorts ascending)
+            return np.sort(arr(out))
+        return arr(out)
     if name == "lu_and_piv":
         lu, piv = M.lu_and_piv
         return (np.asarray(lu, dtype=float), np.asarray(piv, dtype=float))
@@ -131,21 +160,17 @@ def same(a, b, rtol=1e-9):
     return bool(np.all(np.abs(a - b) <= rtol * (1.0 + np.max(np.abs(b)))))
 
 
-def applicable(M, name):
-    """Whether the request exists for this object (AttributeError on a fresh instance = not applicable)."""
+def _applicable1(M, first):
     from mici import matrices as mm
 
+    if not isinstance(M, mm.Matrix):
+        return False
     c = mtree.caps(M)
-    first = name.split(".")[0]
     if first in ("inv",) and not c["inv"]:
         return False
     if first == "sqrt" and not c["pd"]:
         return False
     if first in ("eigval", "eigvec") and not c["sym"]:
-        return False
-    if name in ("inv.sqrt",) and not c["pd"]:
-        return False
-    if name == "inv.eigval" and not c["symcls"]:
         return False
     if first == "factor" and not hasattr(type(M), "factor"):
         return False
@@ -157,12 +182,38 @@ def applicable(M, name):
         if not isinstance(M, mm.DifferentiableMatrix):
             return False
         if isinstance(M, mm.PositiveDefiniteBlockDiagonalMatrix) and not all(
-                applicable(b, name) for b in M.blocks):
+                _applicable1(b, first) for b in M.blocks):
             return False  # documented RuntimeError: not all blocks differentiable
         if isinstance(M, mm.PositiveDefiniteLowRankUpdateMatrix) and not c["pd"]:
             return False
-    if first == "log_abs_det" and not isinstance(M, mm.SquareMatrix):
+    if first in ("log_abs_det", "diagonal") and not isinstance(M, mm.SquareMatrix):
         return False
+    if first == "diagonal" and not hasattr(type(M), "diagonal"):
+        return False
+    return True
+
+
+def applicable(M, name, s=1.0):
+    """Whether the request exists for this object: every segment of a chained request must be offered by the
+    class of the object it is applied to (walked on the instance: M is a throw-away or the derived views are
+    cached values that the request would create anyway)."""
+    from mici import matrices as mm
+
+    if name in ("matvec", "rmatvec", "matmat", "mul", "div", "neg", "hash"):
+        return True
+    obj = M
+    for a in name.split("."):
+        if a in ("mul", "div", "neg"):
+            if not isinstance(obj, mm.Matrix):
+                return False
+            obj = {"mul": lambda o: s * o, "div": lambda o: o / s, "neg": lambda o: -o}[a](obj)
+            continue
+        if not _applicable1(obj, a):
+            return False
+        if a in ("T", "inv", "sqrt", "capacitance"):
+            obj = obj.capacitance_matrix if a == "capacitance" else getattr(obj, a)
+        else:
+            return a == name.split(".")[-1]
     return True
 
 
@@ -294,8 +345,29 @@ def run_case(case) -> Result:
     interesting = False
     cur = X
     for op, arg in case["ops"]:
+        if op == "pair":
+            # ordered pair on a fresh instance: evaluate A (populating whatever it caches), then B; B must equal
+            # its value on an instance on which nothing was evaluated before
+            A, Bn = WARM[arg % len(WARM)], LAZY[(arg * 7 + len(lazy_seen) + case["mut"]) % len(LAZY)]
+            probe, _ = build(spec)
+            if not (applicable(probe.M, A, s) and applicable(probe.M, Bn, s)):
+                continue
+            f1, _ = build(spec)
+            f2, _ = build(spec)
+            okf, ref = guard(f"{Bn}@fresh", lambda: value_of(f1.M, Bn, data, s))
+            oka, _ = guard(f"{A}@fresh", lambda: value_of(f2.M, A, data, s))
+            if not (okf and oka):
+                continue
+            ok, got = guard(Bn, lambda: value_of(f2.M, Bn, data, s))
+            res.classes.append("pair")
+            interesting = True
+            if ok and not same(got, ref):
+                res.fail(key(f"order-dependence:{Bn}"), f"{Bn} evaluated after {A} on a fresh {label} differs from {Bn} "
+                         f"evaluated first")
+            continue
         if op in LAZY or op in ("matvec", "rmatvec", "matmat", "mul", "div", "neg"):
-            if not applicable(cur, op):
+            probe, _ = build(spec)
+            if not applicable(probe.M, op, s):
                 continue
             fresh, _ = build(spec)
             okf, ref = guard(f"{op}@fresh", lambda: value_of(fresh.M, op, data, s))
